@@ -412,20 +412,24 @@ static void mi_segment_os_free(mi_segment_t* segment, mi_segments_tld_t* tld) {
     tld->reclaim_count--;
     segment->was_reclaimed = false;
   }
+  const size_t size = mi_segment_size(segment);
+  size_t csize = _mi_commit_mask_committed_size(&segment->commit_mask, size);
   if (MI_SECURE>0) {
     // _mi_os_unprotect(segment, mi_segment_size(segment)); // ensure no more guard pages are set
     // unprotect the guard pages; we cannot just unprotect the whole segment size as part may be decommitted
     size_t os_pagesize = _mi_os_page_size();
-    _mi_os_unprotect((uint8_t*)segment + mi_segment_info_size(segment) - os_pagesize, os_pagesize);
+    bool unprotected = _mi_os_unprotect((uint8_t*)segment + mi_segment_info_size(segment) - os_pagesize, os_pagesize);
     uint8_t* end = (uint8_t*)segment + mi_segment_size(segment) - os_pagesize;
-    _mi_os_unprotect(end, os_pagesize);
+    if (!_mi_os_unprotect(end, os_pagesize)) { unprotected = false; }
+    if (!unprotected && csize == size && !segment->memid.is_pinned) {
+      // a guard page is still inaccessible: do not return the memory as fully committed
+      // so it is committed (and made accessible) again before it is reused.
+      csize -= os_pagesize;
+    }
   }
 
   // purge delayed decommits now? (no, leave it to the arena)
   // mi_segment_try_purge(segment,true,tld->stats);
-
-  const size_t size = mi_segment_size(segment);
-  const size_t csize = _mi_commit_mask_committed_size(&segment->commit_mask, size);
 
   _mi_arena_free(segment, mi_segment_size(segment), csize, segment->memid);
 }
